@@ -338,9 +338,6 @@ pub fn judge(g: &mut Gen, bytes: &[u8], version: u8, expect: Expect, describe: &
             let parsed_in = if info.is_some() { info } else { inspect::parse(bytes).ok() };
             if parsed_in.is_none() {
                 g.label("accepted:input_unreadable_by_harness");
-                if std::env::var_os("VF_WASM_TIMING").is_some() {
-                    eprintln!("UNREADABLE: {:?} / {:?} :: {}", inspect::validates(bytes, true).err(), inspect::parse(bytes).err(), describe().chars().take(300).collect::<String>());
-                }
             }
             if let Err((sig, msg)) = check_output(parsed_in.as_ref(), &out, version) {
                 return Outcome::fail(sig, format!("{}\nVM version {}\ninput: {}", msg, version, describe()));
@@ -442,12 +439,7 @@ fn modules_case(g: &mut Gen) -> Outcome {
     }
     let expect = if toggle.is_violation() { Expect::Reject(toggle) } else { Expect::Accept };
     let wat_text = m.wat.clone();
-    let t0 = std::time::Instant::now();
-    let r = judge(g, &bytes, opts.vm_version, expect, &|| wat_text.clone());
-    if std::env::var_os("VF_WASM_TIMING").is_some() && t0.elapsed().as_millis() > 50 {
-        eprintln!("SLOW {} ms: {} ({} bytes)", t0.elapsed().as_millis(), toggle.label(), bytes.len());
-    }
-    r
+    judge(g, &bytes, opts.vm_version, expect, &|| wat_text.clone())
 }
 
 // ------------------------------------------------------------------------------------------------
@@ -737,8 +729,8 @@ pub fn check() -> Check {
     )
     .assume("wasmparser 0.244 and wat 1.244 are trusted for reading and assembling modules; the host interface table is transcribed from scrypto/src/engine/wasm_api.rs and the crypto-utils version split from the protocol updates (anemone, cuttlefish)")
     .assume("the shape of the metering / stack-limiter code (gas charge = i64.const + call, 10+4 instruction bracket, thunks) is taken from radix-wasm-instrument 1.0.0's documentation; functions without parameters and locals are exempt from the bracket/thunk rule because their stack cost may be zero")
-    .part(Part::new("modules", 6_000, 300_000, 1500, modules_case))
-    .part(Part::new("mutants", 12_000, 600_000, 700, mutants_case))
-    .part(Part::new("raw", 20_000, 1_000_000, 300, raw_case))
+    .part(Part::new("modules", 10_000, 500_000, 1500, modules_case))
+    .part(Part::new("mutants", 60_000, 3_000_000, 700, mutants_case))
+    .part(Part::new("raw", 100_000, 5_000_000, 300, raw_case))
     .min_nontrivial_pct(20.0)
 }
